@@ -488,11 +488,23 @@ class Canon(object):
     def _bind(self, callee, recv, kind, call, host_bound, allow_temps):
         """-> (pre statements, Subst) binding the callee's parameters to the call's arguments, or None."""
         a = callee.args
-        if a.vararg or a.kwarg or a.posonlyargs:
+        if a.kwarg or a.posonlyargs:
             return None
         params = [x.arg for x in a.args]
         args = list(call.args)
         loads, renames, pre = {}, {}, []
+        vararg_pair = None
+        if a.vararg:
+            # def h(self, *args): ... f(*args) ...   called as h(x, y, z): `args` is the tuple of the extra positional arguments;
+            # only when they are simple (safe to duplicate) and the tuple is never rebound
+            nfixed = len(params) - (1 if kind in ('method', 'unbound') and params else 0)
+            fixed_args = args[1:] if kind == 'unbound' else args
+            extra = fixed_args[nfixed:]
+            nuse = sum(1 for n in ast.walk(callee) if isinstance(n, ast.Name) and n.id == a.vararg.arg and isinstance(n.ctx, ast.Load))
+            if not all(is_simple(e) for e in extra) and nuse > 1:
+                return None
+            vararg_pair = (a.vararg.arg, ast.Tuple(elts=[copy.deepcopy(e) for e in extra], ctx=ast.Load()))
+            args = args[:len(args) - len(extra)] if extra else args
         assigned = {n.id for n in walk_scope(callee) if isinstance(n, ast.Name) and isinstance(n.ctx, (ast.Store, ast.Del))}
         uses = {}
         for n in ast.walk(callee):
@@ -525,6 +537,10 @@ class Canon(object):
                 if p not in defaults:
                     return None
                 pairs.append((p, defaults[p]))
+        if vararg_pair is not None:
+            if vararg_pair[0] in assigned:
+                return None
+            loads[vararg_pair[0]] = vararg_pair[1]
         for p, e in pairs:
             if is_simple(e) and p not in assigned:
                 loads[p] = e
@@ -1218,6 +1234,15 @@ class Spell(ast.NodeTransformer):
 
     def visit_Call(self, node):
         self.generic_visit(node)
+        if any(isinstance(x, ast.Starred) and isinstance(x.value, (ast.Tuple, ast.List)) for x in node.args):
+            new = []
+            for x in node.args:
+                if isinstance(x, ast.Starred) and isinstance(x.value, (ast.Tuple, ast.List)):
+                    new.extend(x.value.elts)        # f(*(a, b)) is f(a, b)
+                else:
+                    new.append(x)
+            node.args = new
+            self._hit()
         fn = _dotted(node.func)
         base = fn.split('.')[-1] if fn else (node.func.attr if isinstance(node.func, ast.Attribute) else None)
         # d.get(k, None) -> d.get(k)
